@@ -363,7 +363,22 @@ def run_model(scenarios, tag="model", **kw):
 
 
 def comparable(lines):
-    return [l for l in lines if l and not l.startswith("#")]
+    """drop info lines; canonicalise the one place where the code's order is a heap's internal iteration order:
+    the block of MessageDropped entries logged by one crash_node call is sorted"""
+    out = [l for l in lines if l and not l.startswith("#")]
+    res = []
+    i = 0
+    while i < len(out):
+        res.append(out[i])
+        if out[i].startswith("LOG NodeCrashed"):
+            j = i + 1
+            while j < len(out) and out[j].startswith("LOG MessageDropped"):
+                j += 1
+            res.extend(sorted(out[i + 1:j]))
+            i = j
+        else:
+            i += 1
+    return res
 
 
 def first_diff(a, b):
